@@ -100,6 +100,8 @@ def gen_cases(ctx):
         for sched, cores, end in (("heap_scheduler", 4, "2.3"), ("heap_scheduler", 2, "2.3"), ("list_scheduler", 4, "2.3"),
                                   ("heap_scheduler", 6, "2.0"), ("list_scheduler", 3, "2.0")):
             cases.append(tie_case(rng, sched, cores, end))
+        # in-states larger than the buffer of the mediator <-> worker pipe (seeded change C20-9)
+        cases.append(fat_case(rng, 3))
     else:
         names = list(CONFIGS_A)
         for i in range(150):
@@ -115,6 +117,8 @@ def gen_cases(ctx):
             cases.append(tie_case(rng, rng.choice(["heap_scheduler", "list_scheduler"]), rng.choice([2, 3, 4, 6]),
                                   rng.choice(["2.3", "2.0", "3.1"]),
                                   rng.choice(["dipoles_atom_factors-coulomb_4dipoles", "dipoles_atom_factors-coulomb"])))
+        for k in range(4):
+            cases.append(fat_case(rng, [2, 3, 4, 6][k]))
         namesb = list(CONFIGS_B)
         for i in range(50):
             cases.append(dict(cfg=namesb[i % len(namesb)], scope="B", stream="call", seed=rng.randrange(1, 10 ** 6),
@@ -145,6 +149,15 @@ def slow_case(rng, name, cores):
     return dict(cfg=name, scope="A", stream="handler", seed=rng.randrange(1, 10 ** 6), cores=cores,
                 delay_seed=rng.randrange(10 ** 6), max_delay_ms=1.0, timeout=90,
                 slow_out=dict(SLOW_SPEC, seed=rng.randrange(10 ** 6)))
+
+
+def fat_case(rng, cores):
+    """Every point mass carries 15000 additional (unused) named charges: a pickled in-state of a pair handler is about
+    0.6 MB, more than the pipe between the mediator and a worker buffers (about 200 kB), so that a send blocks until the
+    worker reads (seeded change C20-9: in-state sent before the worker is started)."""
+    return dict(cfg="dipoles_atom_factors-coulomb", scope="A", stream="handler", seed=rng.randrange(1, 10 ** 6),
+                cores=cores, delay_seed=rng.randrange(10 ** 6), max_delay_ms=1.0, timeout=120, fat_charges=15000,
+                extra_set=[[EOR, "end_of_run_time", "0.6"]])
 
 
 def tie_case(rng, sched, cores, end="2.3", cfg="dipoles_atom_factors-coulomb_4dipoles"):
@@ -225,6 +238,8 @@ def payload(case, mediator):
             p["pause"] = case["pause"]
         if case.get("slow_out"):
             p["slow_out"] = case["slow_out"]
+        if case.get("fat_charges"):
+            p["fat_charges"] = case["fat_charges"]
     return p
 
 
